@@ -47,7 +47,11 @@ func astCoq(n *parser.ASTNode) string {
 func coqCase(e *Exec, in *Input, obs []Obs) string {
 	curASTs = e.asts
 	var sb strings.Builder
-	sb.WriteString("CSched [")
+	if in.Opts != nil {
+		fmt.Fprintf(&sb, "CSchedF %v %v [", in.Opts.SkipSortDocs, in.Opts.KeepMetaFile)
+	} else {
+		sb.WriteString("CSched [")
+	}
 	for wi, bulks := range in.Bulks {
 		if wi > 0 {
 			sb.WriteString("; ")
@@ -145,6 +149,20 @@ func coqCase(e *Exec, in *Input, obs []Obs) string {
 		}
 	}
 	sb.WriteString("]")
+	if in.Opts != nil {
+		sb.WriteString(" [")
+		for i, o := range obs {
+			if i > 0 {
+				sb.WriteString("; ")
+			}
+			p := make([]string, len(o.Files))
+			for k, m := range o.Files {
+				p[k] = fmt.Sprint(m)
+			}
+			sb.WriteString("[" + strings.Join(p, "; ") + "]")
+		}
+		sb.WriteString("]")
+	}
 	return sb.String()
 }
 
@@ -187,6 +205,10 @@ func classify(in *Input, obs []Obs) (string, bool, []string) {
 		}
 	}
 	counts = append(counts, fmt.Sprintf("rotations:%d", rot))
+	if in.Opts != nil {
+		counts = append(counts, fmt.Sprintf("opts:skip-sort-docs=%v,keep-meta-file=%v", in.Opts.SkipSortDocs, in.Opts.KeepMetaFile))
+		counts = append(counts, handoverCounts(in, obs)...)
+	}
 	if overlap {
 		counts = append(counts, "reader-overlaps-index-step")
 	}
@@ -199,7 +221,116 @@ func classify(in *Input, obs []Obs) (string, bool, []string) {
 	if sui > 0 {
 		counts = append(counts, "suicide")
 	}
-	return findingClass(in, obs), overlap || sealMid || retry, counts
+	cls := findingClass(in, obs)
+	if cls == "sched" && in.Opts != nil {
+		cls = optsClass(in.Opts)
+	}
+	return cls, overlap || sealMid || retry || sealedFetchAfterRelease(in, obs), counts
+}
+
+func optsClass(o *Opts) string {
+	switch {
+	case o.SkipSortDocs && o.KeepMetaFile:
+		return "sched-skipsort-keepmeta"
+	case o.SkipSortDocs:
+		return "sched-skipsort"
+	case o.KeepMetaFile:
+		return "sched-keepmeta"
+	}
+	return "sched-files"
+}
+
+// sealedPhase replays the bookkeeping of the schedule: for every label the fraction a reader's request goes to
+// and how far the seal thread of that fraction is (0 not swapped, 33 swapped, 34 released, 35 before-replace,
+// 36 replaced), -1 when retention removed it.
+func handoverWalk(in *Input, obs []Obs, visit func(i int, l Label, o Obs, g, phase int, found int)) {
+	phase := map[int]int{}
+	snaps := map[int][]int{}
+	nfr, shift := 1, 0
+	for i, l := range in.Labels {
+		o := obs[i]
+		switch l.K {
+		case "Rot":
+			if o.K == "unit" {
+				nfr++
+			}
+		case "Sui":
+			if o.K == "unit" {
+				phase[shift] = -1
+				shift++
+			}
+		case "M":
+			if o.K == "hook" && o.H >= 33 && phase[l.T] >= 0 {
+				phase[l.T] = o.H
+			}
+			if o.K == "done" && phase[l.T] >= 33 {
+				phase[l.T] = 36
+			}
+		case "Snap":
+			if o.K == "snap" {
+				gs := []int{}
+				for g := shift; g < nfr; g++ {
+					gs = append(gs, g)
+				}
+				snaps[l.T] = gs
+			}
+		case "FB", "SB":
+			if l.J < len(snaps[l.T]) {
+				g := snaps[l.T][l.J]
+				found := 0
+				for _, d := range o.Docs {
+					if d >= 0 {
+						found++
+					}
+				}
+				visit(i, l, o, g, phase[g], found)
+			}
+		}
+	}
+}
+
+func sealedFetchAfterRelease(in *Input, obs []Obs) bool {
+	hit := false
+	handoverWalk(in, obs, func(i int, l Label, o Obs, g, phase, found int) {
+		if l.K == "FB" && phase >= 34 && found > 0 {
+			hit = true
+		}
+	})
+	return hit
+}
+
+func handoverCounts(in *Input, obs []Obs) []string {
+	seen := map[string]bool{}
+	rotAt := []int{}
+	for i, l := range in.Labels {
+		if l.K == "Rot" && obs[i].K == "unit" {
+			rotAt = append(rotAt, i)
+		}
+	}
+	handoverWalk(in, obs, func(i int, l Label, o Obs, g, phase, found int) {
+		if l.K != "FB" || found == 0 {
+			return
+		}
+		switch {
+		case phase == 33:
+			seen["fetch-found-on-sealed:between-swap-and-release"] = true
+		case phase == 34 || phase == 35:
+			seen["fetch-found-on-sealed:after-release-through-proxy"] = true
+		case phase == 36:
+			seen["fetch-found-on-sealed:after-replace"] = true
+		}
+		if phase >= 34 && len(rotAt) >= 2 && i > rotAt[1] && g == 0 {
+			seen["fetch-found-on-sealed:after-second-rotation"] = true
+		}
+	})
+	out := []string{}
+	for _, k := range []string{"fetch-found-on-sealed:between-swap-and-release", "fetch-found-on-sealed:after-release-through-proxy",
+		"fetch-found-on-sealed:after-replace", "fetch-found-on-sealed:after-second-rotation"} {
+		if seen[k] {
+			out = append(out, k)
+		}
+	}
+	return out
 }
 
 // evalAST is the meaning of a parsed query on a document's token set.
@@ -311,6 +442,9 @@ type cand struct {
 
 func runGenerated(r *rng.R, idx int) *Result {
 	in := &Input{Bulks: genBulks(r), Queries: stdQueries}
+	// every random schedule carries the fraction options and the file observations; half of them run with the
+	// non-default SkipSortDocs (sealed fraction keeps reading through the active fraction's descriptor)
+	in.Opts = &Opts{SkipSortDocs: r.Chance(1, 2), KeepMetaFile: r.Chance(1, 3)}
 	e, err := NewExec(in)
 	if err != nil {
 		panic(err)
@@ -494,6 +628,51 @@ func runGenerated(r *rng.R, idx int) *Result {
 			suis++
 		}
 		do(pick)
+		// hand-over gadget: right after the swap / the release / the list replacement of fraction g a reader takes a
+		// fresh list, searches the fraction (now served by the sealed provider) and fetches every ID it got, and a
+		// reader that still holds an OLDER list (the proxy entry) fetches IDs returned earlier
+		if last := obs[len(obs)-1]; pick.K == "M" && ((last.K == "hook" && last.H >= 33) || last.K == "done") && r.Chance(2, 3) && !e.hang {
+			g := pick.T
+			ri := r.Intn(readersOn)
+			if rd := e.rs[ri]; !rd.inop {
+				for _, other := range e.rs[:readersOn] { // stale list first
+					if other != rd && !other.inop {
+						for j, og := range other.snapG {
+							if og == g && len(seen) > 0 {
+								oi := 0
+								for k := range e.rs {
+									if e.rs[k] == other {
+										oi = k
+									}
+								}
+								do(Label{K: "FB", T: oi, J: j, IDs: dedupIDs(append([][2]uint64{rng.Pick(r, seen)}, seen[:min(len(seen), 3)]...))})
+								for other.inop && !e.hang {
+									do(Label{K: "R", T: oi})
+								}
+								break
+							}
+						}
+						break
+					}
+				}
+				do(Label{K: "Snap", T: ri})
+				for j, sg := range rd.snapG {
+					if sg == g {
+						do(Label{K: "SB", T: ri, J: j, Q: qAll})
+						for rd.inop && !e.hang {
+							do(Label{K: "R", T: ri})
+						}
+						if got := obs[len(obs)-1]; got.K == "res" && len(got.IDs) > 0 && !e.hang {
+							do(Label{K: "FB", T: ri, J: j, IDs: dedupIDs(got.IDs)})
+							for rd.inop && !e.hang {
+								do(Label{K: "R", T: ri})
+							}
+						}
+					}
+				}
+				e.counts = append(e.counts, "gadget:fetch-after-handover-step")
+			}
+		}
 	}
 	if !e.hang {
 		ls, os_ := drain(e)
